@@ -32,8 +32,10 @@ RULE = ('C13.history: rule-based state machine over a shared pool of live '
         'applies >= 2 different operations to the same object and repeats an '
         'operation after an intervening serialise/parse/write in some format.')
 ASSUMPTIONS = [
-    'the pool is a fixed, documented set of objects (vf/histops.py); '
-    'Hypothesis generates the operation histories',
+    'the pool is a documented set of objects (vf/histops.py) or a member of '
+    'its family (every region moved by a drawn multiple of 1/8 px, resized, '
+    'turned, its angle re-expressed in deg/rad/arcmin/hourangle); Hypothesis '
+    'draws the family member and the operation histories',
     'written FITS files are compared through the regions read back from '
     'them, DS9/CRTF files byte for byte',
 ]
@@ -52,10 +54,23 @@ def op_strategy():
                      st.integers(0, 5), st.integers(0, 5)).map(list)
 
 
+def variant_strategy():
+    """Which member of the pool family (vf/histops.vary) a history runs on;
+    half of the histories use the documented pool itself."""
+    return st.one_of(
+        st.none(),
+        st.fixed_dictionaries({
+            'shift': st.tuples(st.integers(-12, 12), st.integers(-12, 12)).map(list),
+            'scale': st.sampled_from([1.0, 0.5, 0.75, 1.25, 1.0 / 3]),
+            'rot': st.sampled_from([0.0, 90.0, -33.0, 180.0, 400.0, 12.5]),
+            'unit': st.sampled_from(['deg', 'rad', 'arcmin', 'hourangle'])}))
+
+
 class Model:
-    def __init__(self, ctx):
+    def __init__(self, ctx, variant=None):
         self.ctx = ctx
-        self.pool = H.make_pool()
+        self.variant = variant
+        self.pool = H.make_pool(variant)
         self.pool_fp = fp(self._flat())
         self.tables = H.module_tables()
         self.memo = {}
@@ -130,16 +145,26 @@ class History(Relation):
         return None
 
     def check(self, spec, ctx):
-        m = Model(ctx)
+        m = Model(ctx, spec.get('variant'))
         for op in spec['history']:
             m.step(op)
 
     def machine(self, ctx):
+        from hypothesis.stateful import initialize
+
         class M(RuleBasedStateMachine):
             def __init__(self):
                 super().__init__()
                 ctx.begin({'history': []})
                 self.m = Model(ctx)
+
+            @initialize(variant=variant_strategy())
+            def choose_pool(self, variant):
+                if variant is not None:
+                    self.m = Model(ctx, variant)
+                    ctx.label('pool:variant')
+                else:
+                    ctx.label('pool:documented')
 
             @rule(op=op_strategy())
             def do(self, op):
@@ -158,7 +183,8 @@ class History(Relation):
                 except Mismatch as e:
                     if e.key in ctx.suppressed or ctx.is_known(e.key):
                         return
-                    ctx.last_fail = ({'history': [list(o) for o in
+                    ctx.last_fail = ({'variant': self.m.variant,
+                                      'history': [list(o) for o in
                                                   self.m.history]},
                                      e.key, e.msg)
                     raise
@@ -169,7 +195,8 @@ class History(Relation):
                     self.do(self.m.history[k % len(self.m.history)])
 
             def teardown(self):
-                ctx._spec = {'history': [list(o) for o in self.m.history]}
+                ctx._spec = {'variant': self.m.variant,
+                             'history': [list(o) for o in self.m.history]}
                 ctx.nontrivial(self.m.nontrivial())
                 ctx.label('len:%d' % (len(self.m.history) // 10 * 10))
                 ctx.end()
@@ -197,16 +224,18 @@ class Fresh(Relation):
                 st.tuples(st.sampled_from(list(IO_OPS)), st.integers(0, 13),
                           st.integers(0, 5), st.integers(0, 5)).map(list),
                 op_strategy()).map(list),
+            'variant': variant_strategy(),
             'hashseed': st.integers(0, 3)})
 
     def check(self, sp, ctx):
         from vf.child import spawn
-        m = Model(ctx)
+        m = Model(ctx, sp.get('variant'))
         for op in sp['history']:
             m.step(op)
         for op in sp['targets']:
             here = m.step(op)
-            r = spawn({'op': 'region_op', 'args': {'op': op}},
+            r = spawn({'op': 'region_op',
+                       'args': {'op': op, 'variant': sp.get('variant')}},
                       hashseed=sp['hashseed'])
             ctx.check(r['ok'], f'{op[0]} | fails as the first operation of a '
                       'fresh interpreter', r.get('error', ''))
